@@ -10,7 +10,7 @@
                 JSON: dec of the jsonified tree (non-finite => null);
                 positional: decp (encp v) must return the cleared object and consume everything. *)
 From Coq Require Import ZArith List Bool Floats String.
-From AltModel Require Import Num Codec CodecSchema.
+From AltModel Require Import Num Interp Powertrain Loco Consist Codec CodecSchema.
 Import ListNotations.
 Export String.
 
@@ -64,6 +64,16 @@ Definition x_codec (t : tyf) (e : valf) : list out :=
   res_outs (dec t e)
     (fun v => [OB (has_tyb t v); OB (val_eqb (enc t v) e); OB (json_ok t e); OB (pos_ok t v);
                OB (no_skip t v); OB (all_finite e)]).
+
+(* the TYPED layer against the real serializer: the tree the real serializer emitted for a locomotive / consist is decoded
+   with the schema and projected into the numeric model's record ([*_of_val]); the result must be the record the harness
+   printed from the object's fields directly (modulo the cleared caches) - this ties the field positions used by
+   [loco_to_val] / [consist_to_val] (the embedding the typed round-trip theorems are about) to the real field names *)
+Definition x_loco_embed (l : Loco (F:=float)) (e : valf) : list out :=
+  res_outs (dec sch_loco e) (fun v => [OB (val_eqb (loco_to_val (loco_of_val v)) (loco_to_val (loco_normalize l)))]).
+Definition x_consist_embed (c : Consist (F:=float)) (e : valf) : list out :=
+  res_outs (dec sch_consist e)
+    (fun v => [OB (val_eqb (consist_to_val (consist_of_val v)) (consist_to_val (consist_normalize c)))]).
 
 (* schema handles (the harness names them) *)
 Definition s_fc : tyf := sch_fc.
